@@ -137,6 +137,26 @@ def per_case(case, rd, outs, r):
                                               f"{n} active runs of singleton pattern {ph}/{p['name']} after {op[:70]}",
                                               {**case.to_json(), 'failing_step': k}))
                 return
+            # restartability through a peer: an `updated` record of this singleton pattern that is not stale (its run is not
+            # known as finished, it is not at the last block) leaves the pattern WITH a run -- the one it folds onto, or
+            # the one it creates when there is none (because this very message finished the previous one, say)
+            if op.startswith('rem ') and n == 0:
+                cur_l, fin_here, ups = None, set(), []
+                for x in op.split()[1:]:
+                    if x in ('C', 'H', 'U'):
+                        cur_l = x
+                    elif cur_l in ('C', 'H'):
+                        fin_here.add(x.split('|')[0])
+                    else:
+                        ups.append(x.split('|'))
+                live = [u for u in ups if u[1] == ph and u[2] == p['name'] and u[0] not in fin_here and u[0] not in told_finished
+                        and int(u[3]) < len(p['blocks'])]
+                if live:
+                    r.violations.append(Violation('singleton-not-restartable',
+                                                  f"after {op[:90]} no run of {ph}/{p['name']} is active although the message carries the "
+                                                  f"live run {live[0][0]} at block {live[0][3]} of {len(p['blocks'])}",
+                                                  {**case.to_json(), 'failing_step': k}))
+                    return
             # restartability
             if op.startswith('ev '):
                 w = op.split()
